@@ -1,5 +1,5 @@
 """C08 - mass-matrix adaptation whitens Gaussians exactly and never degenerates (DESIGN section 4, C08)."""
-import time
+import time, re
 import z3
 from ..driver import load_mir, REPO
 from ..layout import Layouts
@@ -23,6 +23,8 @@ def run(rep):
     for n in range(3, NMAX + 1): exactness(rep, mir, L, n)
     closures_fp(rep, mir, L)
     lowrank_guards(rep, mir, L)
+    from ..driver import parts
+    parts(rep, [lambda: initial_matrix(rep, mir, L), lambda: inner_matrix(rep, mir, L)])
 
 # ------------------------------------------------------------------------------------------------
 def exactness(rep, mir, L, n):
@@ -207,9 +209,79 @@ def lowrank_guards(rep, mir, L):
             s.add(allfin)
             if s.check() == z3.sat: bad.append(('no update although every input is finite',))
         else:
-            changed += 1; s.add(z3.Not(allfin))
+            changed += 1; s.push(); s.add(z3.Not(allfin))
             if s.check() == z3.sat: bad.append(('transformation changed although an input is non-finite', str(s.model())))
-            if L.get('LowRankMassMatrix', after, 'id') is None: pass
+            s.pop()
+            g = lambda f: L.get('LowRankMassMatrix', after, f); dg = g('diag'); inner = g('inner')
+            if inner.name != 'Some' or [e for e in m2.ghost['events'] if e[0] == 'inner_new'] != [('inner_new',)]: bad.append(('a finite update does not install the new low-rank factor',))
+            s.add(z3.Or(g('logdet').v != z3.Real('inner_logdet') + L.get('DiagMassMatrix', dg, 'logdet').v, g('id') != z3.Int('lid') + 1, L.get('DiagMassMatrix', dg, 'id') != z3.Int('did') + 1))
+            if s.check() != z3.unsat: bad.append(('after an update logdet is not (low-rank part) + (diagonal part) or an id is not bumped (stale whitened coordinates / missing update event)',))
     rep.cover('C08.3 update path that changes the transformation reachable', changed > 0)
     if bad: rep.violated('C08.3 LowRankMassMatrix::update guards', 'lowrank.guards', 'low-rank update guard broken: %s' % (bad[0],), model={'problems': [str(b) for b in bad]})
-    else: rep.holds('C08.3 LowRankMassMatrix::update: any non-finite input (stds, mean, eigenvalues, eigenvectors) leaves the transformation and its id unchanged; finite inputs update it (%d paths)' % len(outs))
+    else: rep.holds('C08.3 LowRankMassMatrix::update: any non-finite input (stds, mean, eigenvalues, eigenvectors) leaves the transformation and its id unchanged; finite inputs install the new diagonal and low-rank parts, logdet = low-rank part + diagonal part, both ids bumped (%d paths)' % len(outs))
+
+
+def initial_matrix(rep, mir, L):
+    """DiagMassMatrix::update_diag_grad (the matrix used before any draws exist, built from the gradient at the start point) over exact reals:
+    variance = 1/|g| within the clamp, std = sqrt(var), inv_std * std = 1, mean = position + var * gradient, logdet = ln(inv_std), id bumped"""
+    A = RealAlg(); vm = VM(mir, A, inst={}); env = MathEnv(vm, 1, 'uf', L); install_misc(vm)
+    fn = mir.method('DiagMassMatrix', None, 'update_diag_grad')
+    m = Machine(); math = Ref(m.alloc(Opaque('math')))
+    mm_ = L.make('DiagMassMatrix', {'mean': Seq([A.fresh('old_mean')]), 'inv_stds': Seq([A.fresh('old_inv_std')]), 'stds': Seq([A.fresh('old_std')]), 'logdet': A.fresh('old_logdet'), 'store_mass_matrix': False, 'id': z3.Int('mm_id')})
+    mc = m.alloc(mm_); x, g, fill = A.fresh('x'), A.fresh('g'), A.fresh('fill'); lo, hi = A.fresh('clamp_lo'), A.fresh('clamp_hi')
+    m.pc += [lo.v > 0, lo.v <= hi.v, fill.v > 0, g.v != 0, z3.Int('mm_id') > -2 ** 40, z3.Int('mm_id') < 2 ** 40]
+    vm.unknown_is_feasible = True; vm.solver.set('timeout', 3000)
+    outs = list(vm.exec_fn(m, fn, [Ref(mc), math, Ref(m.alloc(Seq([x]))), Ref(m.alloc(Seq([g]))), fill, Struct((lo, hi))])); rep.paths += len(outs); nok = 0; bad = []
+    for (m2, k, v) in outs:
+        ax = _sqrt_axioms(A); sol = z3.Solver(); sol.set('timeout', 60000); sol.add(*m2.pc); sol.add(*ax)
+        if sol.check() == z3.unsat: continue
+        if k == 'panic': bad.append(('update_diag_grad panics', str(v)[:100])); continue
+        nok += 1; mat = m2.mem[mc]; gg = lambda f: L.get('DiagMassMatrix', mat, f)
+        std, inv, mu, ld = gg('stds').items[0].v, gg('inv_stds').items[0].v, gg('mean').items[0].v, gg('logdet').v
+        absg = z3.If(g.v >= 0, g.v, -g.v); cl = z3.If(absg < lo.v, lo.v, z3.If(absg > hi.v, hi.v, absg))
+        for nm, cond in (('std^2 x clamp(|g|) = 1 (variance 1/|g| within the clamp)', std * std * cl != 1), ('std > 0 and inv_std x std = 1', z3.Or(std <= 0, inv * std != 1)),
+                         ('mean = position + std^2 x gradient', mu != x.v + std * std * g.v), ('id bumped', gg('id') != z3.Int('mm_id') + 1), ('logdet = ln(inv_std)', ld != A.uf['ln'](inv))):
+            verdict, model = rep.check('C08.4 initial matrix from the gradient: %s (path %d)' % (nm, nok), m2.pc + ax + [cond], timeout_ms=60000)
+            if verdict == 'violated': bad.append((nm, {d.name(): str(model[d]) for d in model.decls() if d.arity() == 0}))
+    rep.absorb_vm(vm); rep.cover('C08.4 update_diag_grad has a feasible path', nok > 0)
+    if bad: rep.violated('C08.4 initial mass matrix', 'diag.initial', 'DiagMassMatrix::update_diag_grad: %s' % (bad[0],), model={'problems': [str(b)[:300] for b in bad[:5]]})
+
+
+def inner_matrix(rep, mir, L):
+    """InnerMatrix::new - the representation invariant that C02 assumes for a low-rank factor: vals_sqrt = sqrt(lambda), vals_sqrt_inv x vals_sqrt = 1,
+    logdet_contribution = -1/2 sum ln(lambda), eigenvectors and translation copied unchanged"""
+    from .. import cpuenv
+    A = RealAlg(); vm = VM(mir, A, inst={}); env = MathEnv(vm, 2, 'uf', L); install_misc(vm); cpuenv.install_linalg(vm)
+    fn = [f for n, f in mir.fns.items() if re.search(r'transform::low_rank::<impl at src/transform/low_rank.rs:\d+:1: \d+:\d+>::new$', n) and 'InnerMatrix' in f.header]
+    if len(fn) != 1: rep.unknown('C08.5 InnerMatrix::new not found'); return
+    fn = fn[0].parse(); r = 2; d = 2
+    lam = [A.fresh('lam%d' % j) for j in range(r)]; U = [[A.fresh('u%d_%d' % (j, i)) for i in range(d)] for j in range(r)]; mu = [A.fresh('mu%d' % i) for i in range(d)]
+    vm.add_model(r'::try_as_col_major$', lambda vm, m, c, a: ret(m, SOME(a[0])))
+    vm.add_model(r'^col::col(ref|mut|own)::<impl .*>::as_slice(_mut)?$', lambda vm, m, c, a: ret(m, __import__('mirsmt.intrinsics', fromlist=['as_slice']).as_slice(vm, m, a[0])))
+    from ..vm import Iter
+    vm.add_model(r'^mat::mat(own|ref)::<impl faer::mat::generic::Mat<.*>>::col_iter$', lambda vm, m, c, a: ret(m, Iter([Ref(a[0].cell, a[0].path + (('i', j),)) for j in range(len(deref_val(vm, m, a[0]).items))])))
+    def new_eig_vectors(vm, m, c, a):
+        from ..iters import to_iter, pull
+        it = to_iter(vm, m, a[1]); cols = []; mm = m
+        for k in range(len(it.items)):
+            (mm, kk, v) = pull(vm, mm, it, k)[0]; cols.append(Seq(__import__('mirsmt.intrinsics', fromlist=['slice_items']).slice_items(vm, mm, v)))
+        return ret(mm, Seq(cols))
+    vm.add_model(r'^<M as Math>::new_eig_vectors::<', new_eig_vectors)
+    vm.add_model(r'^<M as Math>::new_eig_values$', lambda vm, m, c, a: ret(m, Seq(__import__('mirsmt.intrinsics', fromlist=['slice_items']).slice_items(vm, m, a[1]))))
+    m = Machine(); m.pc += [x.v > 0 for x in lam]
+    try: outs = vm.run(fn, [Ref(m.alloc(Opaque('math'))), Seq(lam), Seq([Seq(c) for c in U]), Seq(mu)], m)
+    except Exception as e:
+        rep.unknown('C08.5 InnerMatrix::new', '%s: %s' % (type(e).__name__, str(e)[:200])); return
+    rep.paths += len(outs); rep.absorb_vm(vm); bad = []
+    for (m2, k, v) in outs:
+        if k != 'ret': bad.append(('InnerMatrix::new panics', str(v)[:100])); continue
+        g = lambda f: L.get('InnerMatrix', v, f); ax = _sqrt_axioms(A); ln = A.uf['ln']
+        vs = [t.v for t in g('vals_sqrt').items]; vi = [t.v for t in g('vals_sqrt_inv').items]
+        conds = [('vals_sqrt^2 = lambda, > 0', z3.Or(*[z3.Or(vs[j] * vs[j] != lam[j].v, vs[j] <= 0) for j in range(r)])), ('vals_sqrt_inv x vals_sqrt = 1', z3.Or(*[vi[j] * vs[j] != 1 for j in range(r)])),
+                 ('logdet contribution = -1/2 sum ln lambda', g('logdet_contribution').v != -z3.RealVal('1/2') * z3.Sum([ln(x.v) for x in lam])), ('num_eigenvalues = rank', z3.BoolVal(g('num_eigenvalues') != r)),
+                 ('translation copied', z3.Or(*[a_.v != b_.v for a_, b_ in zip(g('mu').items, mu)])), ('eigenvectors copied column by column', z3.Or(*[cc.items[i].v != U[j][i].v for j, cc in enumerate(g('vecs').items) for i in range(d)]))]
+        for nm, cond in conds:
+            verdict, model = rep.check('C08.5 InnerMatrix::new: %s' % nm, m2.pc + ax + [cond], timeout_ms=60000)
+            if verdict == 'violated': bad.append((nm, str(model)[:200]))
+    rep.cover('C08.5 InnerMatrix::new returns', any(k == 'ret' for (_, k, _) in outs))
+    if bad: rep.violated('C08.5 low-rank factor representation', 'lowrank.inner', 'InnerMatrix::new: %s' % (bad[0],), model={'problems': [str(b)[:300] for b in bad[:5]]})
